@@ -74,6 +74,7 @@ def strategy(tier):
         top=st.sampled_from(['pure', 'nestable', 'nestable']),
         verbose=st.integers(0, 4).map(lambda v: v == 0),
         interleave=st.integers(0, 3).map(lambda v: v == 0),
+        prehomed=st.sampled_from([0, 0, 0, 1, 2, 3]),
         tree=level(0, 12),
         program=st.lists(st.tuples(st.booleans(), st.integers(0, 11), st.integers(0, 11)),
                          max_size=6)))
@@ -84,14 +85,25 @@ class Built:
         self.levels = []        # (scheduler, {index: object}, edges set of (a, b) names)
 
 
-def build_level(spec, name, top_cls, built):
+def precreate(spec, name, pool):
+    """the atomic jobs of the whole tree, created first (they may have lived in another
+    scheduler before this one)"""
+    for i, sub in enumerate(spec['nodes']):
+        nm = "%s.%d" % (name, i)
+        if sub is None:
+            pool[nm] = SJob(nm, hkey=spec['hkeys'][i])
+        else:
+            precreate(sub, nm, pool)
+
+
+def build_level(spec, name, top_cls, built, pool=None):
     objs = []
     for i, sub in enumerate(spec['nodes']):
         nm = "%s.%d" % (name, i)
         if sub is None:
-            objs.append(SJob(nm, hkey=spec['hkeys'][i]))
+            objs.append(pool[nm] if pool else SJob(nm, hkey=spec['hkeys'][i]))
         else:
-            objs.append(build_level(sub, nm, 'nestable', built))
+            objs.append(build_level(sub, nm, 'nestable', built, pool))
             objs[-1].v_hkey = spec['hkeys'][i]
     for a, b in spec['edges']:
         objs[b].requires(objs[a])
@@ -245,7 +257,18 @@ def evaluate_inner(case):
     built = Built()
     nontrivial = []
     with quiet():
-        top = build_level(case['tree'], 't', case['top'], built)
+        pool = None
+        if case.get('prehomed'):
+            # history: the jobs sat in another scheduler, which was scanned, then emptied
+            pool = {}
+            precreate(case['tree'], 't', pool)
+            former = SPure('former', *pool.values())
+            for _ in range(case['prehomed']):
+                former.check_cycles()           # one scan each
+            for job in list(former.jobs):
+                former.remove(job)
+            res.label('history:jobs-came-from-another-scheduler')
+        top = build_level(case['tree'], 't', case['top'], built, pool)
     if case.get('verbose'):
         for sched, _ in built.levels:
             sched.verbose = True
